@@ -91,6 +91,12 @@ func here() (p pcs) {
 	return
 }
 
+// hereUp is here() for a helper one call below the allocator method.
+func hereUp() (p pcs) {
+	runtime.Callers(4, p[:])
+	return
+}
+
 func (p pcs) String() string {
 	n := 0
 	for n < len(p) && p[n] != 0 {
@@ -260,12 +266,14 @@ func (t *T) Free(h *[]byte) {
 	t.free(b, where)
 }
 
-func (t *T) grow(h *[]byte, b *buf, more int, where pcs) *[]byte {
-	// called with lock held; h live
+func (t *T) grow(h *[]byte, b *buf, more int) *[]byte {
+	// called with lock held; h live. The call site is only resolved when the buffer really moves
+	// (walking the stack is the most expensive part of an Append).
 	old := *h
 	if cap(old)-len(old) >= more || !t.MoveOnGrow {
 		return h
 	}
+	where := hereUp()
 	nh := t.alloc(len(old)+more, b.allocPC)
 	*nh = (*nh)[:len(old)]
 	copy(*nh, old)
@@ -293,14 +301,14 @@ func (t *T) Append(h *[]byte, more ...byte) *[]byte {
 		*h = append(*h, more...)
 		return h
 	}
-	where := here()
 	if b.freed {
+		where := here()
 		t.report("append-after-free", b, &where, "")
 		// do not touch the poisoned array; give the caller a detached copy to keep going
 		cp := append(t.detached(b, h), more...)
 		return &cp
 	}
-	h = t.grow(h, b, len(more), where)
+	h = t.grow(h, b, len(more))
 	*h = append(*h, more...)
 	t.liveBytes += len(more)
 	if t.liveBytes > t.PeakLive {
@@ -319,13 +327,13 @@ func (t *T) AppendString(h *[]byte, more string) *[]byte {
 		*h = append(*h, more...)
 		return h
 	}
-	where := here()
 	if b.freed {
+		where := here()
 		t.report("append-after-free", b, &where, "")
 		cp := append(t.detached(b, h), more...)
 		return &cp
 	}
-	h = t.grow(h, b, len(more), where)
+	h = t.grow(h, b, len(more))
 	*h = append(*h, more...)
 	t.liveBytes += len(more)
 	if t.liveBytes > t.PeakLive {
@@ -515,6 +523,13 @@ func (t *T) Sweep() {
 // Violations runs Sweep and returns everything found so far.
 func (t *T) Violations() []Violation {
 	t.Sweep()
+	t.mu.Lock()
+	defer t.mu.Unlock()
+	return append([]Violation(nil), t.viol...)
+}
+
+// Found returns what has been found so far without sweeping the freed buffers.
+func (t *T) Found() []Violation {
 	t.mu.Lock()
 	defer t.mu.Unlock()
 	return append([]Violation(nil), t.viol...)
